@@ -20,6 +20,10 @@
 //	    keys, proper prefixes (where a branch/extension sits), keys between two
 //	    neighbours, below the first, above the last, extensions of keys and
 //	    deleted keys, on the live trie and right after every reopen.
+//	(e) every iteration also RETAINS the slices handed out in Iterator.Key /
+//	    Iterator.Value (as the in-tree consumers do) and compares them with the
+//	    copies taken when they were handed out: after the iteration finished,
+//	    and again after the next mutation + Hash/Commit of the trie.
 //
 // The code under test runs in child processes (one shard of the case list per
 // child); every case is logged before it is executed.
@@ -130,6 +134,9 @@ type exec struct {
 	pairFirst map[string]bool
 	collapses int
 	reopens   int
+
+	retained *retained // slices handed out by the most recent iteration, re-checked after the next mutation + hash
+	retMut   bool      // the content changed since that iteration
 }
 
 func (e *exec) refNow() *refInfo {
@@ -156,6 +163,11 @@ func (e *exec) rootIs(entry string, got common.Hash) *fail {
 	if !bytes.Equal(got[:], want.root[:]) {
 		return &fail{Sig: "C02:" + entry + ":root-mismatch",
 			What: fmt.Sprintf("%s = %x but the reference MPT root of the %d live pairs is %x", entry, got[:], len(e.model), want.root[:])}
+	}
+	if e.retained != nil && e.retMut { // the trie was mutated and hashed since the last iteration handed out its slices
+		rt := e.retained
+		e.retained = nil
+		return rt.verify(e, "mutation")
 	}
 	return nil
 }
@@ -185,19 +197,70 @@ func (e *exec) getCheck(k []byte) *fail {
 
 type pair struct{ k, v []byte }
 
+// retained is the second collection mode of every iteration: the very slices
+// the Iterator handed out in Key / Value (no copy), kept like the in-tree
+// consumers keep them (map keys / collected keys in getAllRefund), next to the
+// copies taken at the moment they were handed out. Iterator.Key / Iterator.Value
+// carry no "do not retain" restriction (NodeIterator.LeafKey / LeafBlob do, and
+// the driver never retains those).
+type retained struct {
+	start      []byte
+	rawK, rawV [][]byte
+	seq        []pair
+}
+
+// verify compares the retained slices with the copies; when is "next" (right
+// after the iteration finished) or "mutation" (after a later mutation + hash).
+func (rt *retained) verify(e *exec, when string) *fail {
+	e.st["iter_retained_checks_after_"+when]++
+	e.st["iter_retained_slices"] += int64(2 * len(rt.seq))
+	for i, p := range rt.seq {
+		if !bytes.Equal(rt.rawK[i], p.k) {
+			return &fail{Sig: "C02:iter:retained-key-changed-after-" + when,
+				What: fmt.Sprintf("iteration from %x: the slice handed out as Iterator.Key for leaf #%d was %x when handed out and reads %x now (%d leaves iterated)", rt.start, i, p.k, rt.rawK[i], len(rt.seq))}
+		}
+		if !bytes.Equal(rt.rawV[i], p.v) {
+			return &fail{Sig: "C02:iter:retained-value-changed-after-" + when,
+				What: fmt.Sprintf("iteration from %x: the slice handed out as Iterator.Value for key %x was %x when handed out and reads %x now", rt.start, p.k, p.v, rt.rawV[i])}
+		}
+	}
+	return nil
+}
+
+// keep records one (Key, Value) as handed out: the slices themselves and copies.
+func (rt *retained) keep(it *trie.Iterator) pair {
+	rt.rawK = append(rt.rawK, it.Key)
+	rt.rawV = append(rt.rawV, it.Value)
+	p := pair{append([]byte{}, it.Key...), append([]byte{}, it.Value...)}
+	rt.seq = append(rt.seq, p)
+	return p
+}
+
+// done: the iteration has finished; judge the retained slices now and keep them for the next mutation.
+func (rt *retained) done(e *exec) *fail {
+	if f := rt.verify(e, "next"); f != nil {
+		return f
+	}
+	e.retained, e.retMut = rt, false
+	return nil
+}
+
 func (e *exec) iterate() ([]pair, *fail) {
 	it := trie.NewIterator(e.t.NodeIterator(nil))
-	var seq []pair
+	rt := &retained{}
 	for it.Next() {
-		seq = append(seq, pair{append([]byte{}, it.Key...), append([]byte{}, it.Value...)})
-		if len(seq) > len(e.model)+len(e.uni)+4 {
-			return seq, &fail{Sig: "C02:iterate:not-live-set", What: fmt.Sprintf("iterator produced more than %d leaves for %d live pairs", len(seq)-1, len(e.model))}
+		rt.keep(it)
+		if len(rt.seq) > len(e.model)+len(e.uni)+4 {
+			return rt.seq, &fail{Sig: "C02:iterate:not-live-set", What: fmt.Sprintf("iterator produced more than %d leaves for %d live pairs", len(rt.seq)-1, len(e.model))}
 		}
 	}
 	if it.Err != nil {
-		return seq, &fail{Sig: "C02:iterate:error", What: "iterator error: " + it.Err.Error()}
+		return rt.seq, &fail{Sig: "C02:iterate:error", What: "iterator error: " + it.Err.Error()}
 	}
-	return seq, nil
+	if f := rt.done(e); f != nil {
+		return rt.seq, f
+	}
+	return rt.seq, nil
 }
 
 func isPrefix(a, b []byte) bool { return len(a) <= len(b) && bytes.Equal(a, b[:len(a)]) }
@@ -531,19 +594,24 @@ func (e *exec) iterFromCheck(start []byte, full []pair) *fail {
 	it := trie.NewIterator(e.t.NodeIterator(start))
 	var obs []pair
 	obsAt := map[string]int{}
+	rt := &retained{start: start}
 	for it.Next() {
-		k := append([]byte{}, it.Key...)
+		p := rt.keep(it)
+		k := p.k
 		if _, dup := obsAt[string(k)]; dup {
 			return &fail{Sig: "C02:iter-from:extra-pair", What: fmt.Sprintf("iteration from %x returned key %x twice", start, k)}
 		}
 		obsAt[string(k)] = len(obs)
-		obs = append(obs, pair{k, append([]byte{}, it.Value...)})
+		obs = append(obs, p)
 		if len(obs) > len(full)+4 {
 			return &fail{Sig: "C02:iter-from:extra-pair", What: fmt.Sprintf("iteration from %x produced more than %d leaves for %d live pairs", start, len(obs)-1, len(full))}
 		}
 	}
 	if it.Err != nil {
 		return &fail{Sig: "C02:iter-from:error", What: fmt.Sprintf("iteration from %x: %v", start, it.Err)}
+	}
+	if f := rt.done(e); f != nil {
+		return f
 	}
 	e.st["iter_from_pairs"] += int64(len(obs))
 	posS := -1
@@ -599,6 +667,7 @@ func (e *exec) iterFromCheck(start []byte, full []pair) *fail {
 func (e *exec) mutated(kind string, k []byte, before *refInfo, changed bool) *fail {
 	if changed {
 		e.ref = nil
+		e.retMut = true
 		after := e.refNow()
 		if after.st.Branches < before.st.Branches {
 			e.collapses++
@@ -1520,6 +1589,7 @@ func main() {
 			"values of 1 (incl. 0x00/0x7f/0x80/0xc0), 2-34, 31-33, 55, 56, 300, 20, 8 bytes; half of them with Hash()+get after every mutation, half only at explicit hash/commit/reopen/check ops; <=64 live keys. "+
 			"iteration from a start key: at every full check and right after every reopen (exhaustive part: every 6th history all, after reopen 2 rotating) the pairs from NodeIterator(start) must be exactly the live pairs with key >= start in full-iteration order, "+
 			"for start = existing / deleted keys, proper prefixes, where two neighbours part, strictly between neighbours, below first, above last, key+0x00 / key+0xff / key+random byte, empty start. "+
+			"every iteration (full, second, before/after reopen, from a start key) also keeps the Iterator.Key / Iterator.Value slices themselves and compares them with immediate copies after the loop and again after the next mutation + Hash/Commit. "+
 			"Non-trivial: the history passed through >=1 branch collapse (reference trie lost a branch node on a delete) and >=1 commit+reopen. distinct_nontrivial = distinct random histories (hash of the op list) + exhaustive histories (distinct by construction: universe, sequence index, variant)", L, L, variantText, nRandom),
 		Assumptions: []string{
 			"reference root: verifharness/ref/mptref, built from the sorted content, self-checked at start-up against the published Ethereum RLP / hex-prefix / Keccak / trietest + trieanyorder vectors",
@@ -1531,6 +1601,7 @@ func main() {
 			"op_rdisk", "op_rmem", "op_limit", "op_cap", "branch_collapses", "branch_splits", "branch_value_added", "branch_value_removed",
 			"contents_with_embedded_nodes", "contents_with_hashed_nodes", "ref_nodes_len31", "ref_nodes_len32", "iter_prefix_pairs", "iter_ordered_pairs",
 			"iter_from_checks", "iter_from_pairs", "iter_from_after_reopen", "iter_from_existing_key", "iter_from_proper_prefix_of_key", "iter_from_between_neighbours",
+			"iter_retained_checks_after_next", "iter_retained_checks_after_mutation", "iter_retained_slices",
 			"iter_from_below_first", "iter_from_above_last", "iter_from_extension_of_key", "iter_from_empty_start", "iter_from_on_empty_trie",
 			"histories_random_nontrivial", "histories_exh_nontrivial", "get_hits", "get_absent", "overwrites"},
 	})
